@@ -43,12 +43,6 @@ Definition catch_value_error {A} (r : res A) (h : res A) : res A :=
   | other => other
   end.
 
-(* Python data[i::-1] for any integer i *)
-Definition slice_rev_from {A} (b : list A) (i : Z) : list A :=
-  let n := blen b in
-  let j := if i <? 0 then (if n + i <? 0 then -1 else n + i) else Z.min i (n - 1) in
-  rev (firstn (Z.to_nat (j + 1)) b).
-
 (* highest i with lo <= i, i + len p <= hi and d[i:i+len p] = p, for the list d whose head has index i0; -1 if none *)
 Fixpoint rfind_at (p d : bytes) (i0 lo hi : Z) : Z :=
   match d with
@@ -287,20 +281,27 @@ Definition auth_split (authority : bytes) : bytes * bytes * bytes * bytes :=
   let host := if ends_colon_digits address then fst (fst (rpartition b_colon address)) else address in
   (userinfo, username, password, host).
 
-(* the username / password nodes and the offset after them *)
-Definition auth_user_nodes (username password : bytes) : list node * Z :=
+(* the username / password nodes and the offset after them; the offset is advanced for the colon whenever
+   the userinfo contains one, also when the password is empty *)
+Definition auth_user_nodes (userinfo username password : bytes) : list node * Z :=
   let '(out1, offset1) :=
     if nonempty username
     then ([Node USERNAME_TYPE (Percent.unquote_to_bytes username) [] 0 (blen username) []], blen username)
     else ([], 0) in
+  let offset1' := if has_byte b_colon userinfo then offset1 + 1 else offset1 in
   if nonempty password
-  then (out1 ++ [Node PASSWORD_TYPE (Percent.unquote_to_bytes password) [] (offset1 + 1)
-                      (offset1 + 1 + blen password) []],
-        offset1 + 1 + blen password)
-  else (out1, offset1).
+  then (out1 ++ [Node PASSWORD_TYPE (Percent.unquote_to_bytes password) [] offset1'
+                      (offset1' + blen password) []],
+        offset1' + blen password)
+  else (out1, offset1').
 
-(* the node appended for the (unquoted) host that starts at [offset] *)
-Definition auth_host_nodes (host' : bytes) (offset : Z) : res (list node) :=
+(* ip_node.end = e *)
+Definition set_end (n : node) (e : Z) : node :=
+  match n with Node t v o s _ k => Node t v o s e k end.
+
+(* the node appended for the unquoted host [host'] whose still escaped text starts at [offset] and is
+   [host_length] bytes long *)
+Definition auth_host_nodes (host' : bytes) (offset host_length : Z) : res (list node) :=
   if startswith host' [b_lbr] then
     if negb (endswith host' [b_rbr]) then Raise value_error
     else catch_value_error
@@ -308,17 +309,17 @@ Definition auth_host_nodes (host' : bytes) (offset : Z) : res (list node) :=
            (Ok [])
   else
     catch_value_error
-      (do n <- parse_ip_node host'; Ok [shift n offset])
+      (do n <- parse_ip_node host'; Ok [set_end (shift n offset) (offset + host_length)])
       (Ok (if is_domain host'
-           then [Node DOMAIN_TYPE host' [] offset (offset + blen host') []]
+           then [Node DOMAIN_TYPE host' [] offset (offset + host_length) []]
            else [])).
 
 Definition parse_authority (authority : bytes) : res (list node) :=
   let '(userinfo, username, password, host) := auth_split authority in
-  let '(out2, offset2) := auth_user_nodes username password in
+  let '(out2, offset2) := auth_user_nodes userinfo username password in
   if negb (nonempty host) then Ok out2 else
-  let offset := if nonempty userinfo then offset2 + 1 else offset2 in
-  do hn <- auth_host_nodes (Percent.unquote_to_bytes host) offset;
+  let offset := if has_byte b_at authority then offset2 + 1 else offset2 in
+  do hn <- auth_host_nodes (Percent.unquote_to_bytes host) offset (blen host);
   Ok (out2 ++ hn).
 
 (* ---------- parse_url ---------- *)
@@ -377,7 +378,7 @@ Definition find_ips_one (data : bytes) (mt : mtch) : res (option node) :=
   if forallb (fun c => has_byte c (L"0x.")) ip then Ok None else
   if endswith ip (L".0") || endswith ip (L".255") then Ok None else
   let start := m_start mt 0 in
-  let prefix := slice_rev_from data (start - 1) in
+  let prefix := rev (slice data 0 start) in
   do m0 <- re_match RE_network_find_ips_0 NG_network_find_ips_0 prefix;
   if is_some m0 then Ok None else
   do m1 <- re_match RE_network_find_ips_1 NG_network_find_ips_1 prefix;
@@ -423,6 +424,8 @@ Definition find_urls_one (data : bytes) (mt : mtch) : res (option node) :=
   do ok <- is_url grp;
   if negb ok then Ok None else
   let '(value, obfuscation) := normalize_percent_encoding grp in
+  do ok2 <- is_url value;
+  if negb ok2 then Ok None else
   do kids <- parse_url value;
   Ok (Some (Node URL_TYPE value obfuscation start en kids)).
 
